@@ -12,9 +12,9 @@
 package vos
 
 import (
-	"errors"
 	"io"
 	"os"
+	"path/filepath"
 	"sync/atomic"
 	"syscall"
 
@@ -257,7 +257,85 @@ func ReadDir(name string) ([]DirEntry, error) {
 		point("ReadDir", name, false)
 		return os.ReadDir(rp(name))
 	}
-	return nil, errors.New("vos: ReadDir not supported on MemFS")
+	point("ReadDir", cleanPath(name), false)
+	return fs.readDir(name)
+}
+
+// Glob is filepath.Glob on the installed file system (used by the
+// verifshim/vfilepath package, which replaces path/filepath in the repository
+// under test so that no directory scan escapes the shim).
+func Glob(pattern string) ([]string, error) {
+	fs := backend.Load()
+	if fs == nil {
+		point("Glob", pattern, false)
+		ms, err := filepath.Glob(rp(pattern))
+		if r := realRoot.Load(); r != nil {
+			for i, m := range ms {
+				if len(m) > len(*r) && m[:len(*r)] == *r {
+					ms[i] = m[len(*r):]
+				}
+			}
+		}
+		return ms, err
+	}
+	if _, err := filepath.Match(pattern, ""); err != nil {
+		return nil, err
+	}
+	point("Glob", cleanPath(pattern), false)
+	var out []string
+	for _, p := range fs.allPaths() {
+		if ok, _ := filepath.Match(cleanPath(pattern), p); ok {
+			out = append(out, p)
+		}
+	}
+	return out, nil
+}
+
+// WalkDir is filepath.WalkDir on the installed file system (lexical order).
+func WalkDir(root string, fn func(path string, d DirEntry, err error) error) error {
+	fs := backend.Load()
+	if fs == nil {
+		point("WalkDir", root, false)
+		r := realRoot.Load()
+		return filepath.WalkDir(rp(root), func(path string, d DirEntry, err error) error {
+			if r != nil && len(path) >= len(*r) && path[:len(*r)] == *r {
+				path = path[len(*r):]
+			}
+			return fn(path, d, err)
+		})
+	}
+	info, err := Stat(root)
+	if err != nil {
+		return fn(root, nil, err)
+	}
+	return fs.walk(cleanPath(root), memDirEntry{memInfo{name: filepath.Base(root), dir: info.IsDir(), size: info.Size()}}, fn)
+}
+
+func (fs *MemFS) walk(path string, d DirEntry, fn func(path string, d DirEntry, err error) error) error {
+	if err := fn(path, d, nil); err != nil || !d.IsDir() {
+		if err == filepath.SkipDir && d.IsDir() {
+			err = nil
+		}
+		return err
+	}
+	ents, err := ReadDir(path)
+	if err != nil {
+		if err = fn(path, d, err); err != nil {
+			if err == filepath.SkipDir {
+				err = nil
+			}
+			return err
+		}
+	}
+	for _, e := range ents {
+		if err := fs.walk(filepath.Join(path, e.Name()), e, fn); err != nil {
+			if err == filepath.SkipDir {
+				break
+			}
+			return err
+		}
+	}
+	return nil
 }
 
 // ---- File methods ----
